@@ -645,6 +645,37 @@ func c20WriterJoined(c *Ctx) {
 			n++
 			cnt++
 			esc := flow.ExitsAvoiding(fn, g, isWait, false)
+			// a starter that is handed the WaitGroup its goroutines belong to (startWriters(…, &writers)) leaves the
+			// join to its callers: each of them waits on that group on every path after the call
+			if esc != nil {
+				for pi, p := range fn.Params {
+					if ir.TypeStr(p.Type()) != "*sync.WaitGroup" {
+						continue
+					}
+					allJoin, nCallers := true, 0
+					for _, e := range ir.Callers(c.G, fn) {
+						site, ok := e.Site.(*ssa.Call)
+						if !ok || !c.P.IsLib(e.Caller.Func) {
+							continue
+						}
+						nCallers++
+						caller := e.Caller.Func
+						joined := flow.ExitsAvoiding(caller, site, isWait, false) == nil
+						ir.EachInstr(caller, func(_ *ssa.BasicBlock, _ int, d ssa.Instruction) {
+							if df, ok := d.(*ssa.Defer); ok && ir.CallName(df) == "(*sync.WaitGroup).Wait" && flow.Dominates(df, site) {
+								joined = true
+							}
+						})
+						_ = pi
+						if !joined {
+							allJoin = false
+						}
+					}
+					if nCallers > 0 && allJoin {
+						esc = nil
+					}
+				}
+			}
 			// a `defer wg.Wait()` registered before the goroutine starts runs at every exit
 			ir.EachInstr(fn, func(_ *ssa.BasicBlock, _ int, d ssa.Instruction) {
 				if df, ok := d.(*ssa.Defer); ok && ir.CallName(df) == "(*sync.WaitGroup).Wait" && flow.Dominates(df, g) {
